@@ -17,12 +17,12 @@ func VerifC04SlashFromUndelegation() {
 	amount := verifrt.Int("amount")
 	left := verifrt.Int("left")
 	p := verifrt.Dec("p")
-	verifrt.Assume(amount.IsPositive() && amount.LTE(max) && !left.IsNegative() && left.LTE(amount))
-	verifrt.Assume(!p.IsNegative() && p.LTE(sdkmath.LegacyOneDec()))
+	verifrt.Assume(verifrt.All(amount.IsPositive(), amount.LTE(max), !left.IsNegative(), left.LTE(amount)))
+	verifrt.Assume(verifrt.All(!p.IsNegative(), p.LTE(sdkmath.LegacyOneDec())))
 	rec := &delegationtype.UndelegationRecord{StakerID: "s", AssetID: "a", Amount: amount, ActualCompletedAmount: left}
 	out := SlashFromUndelegation(rec, p)
 	after := rec.ActualCompletedAmount
-	verifrt.Assert(!after.IsNegative() && after.LTE(left), "what is left never increases and never goes negative")
+	verifrt.Assert(verifrt.All(!after.IsNegative(), after.LTE(left)), "what is left never increases and never goes negative")
 	verifrt.Assert(rec.Amount.Equal(amount), "the original amount of the record is not modified")
 	cut := left.Sub(after)
 	// reference: floor(p*amount) in 18-decimal fixed point
@@ -35,6 +35,6 @@ func VerifC04SlashFromUndelegation() {
 		verifrt.Assert(cut.IsZero(), "no execution record only when nothing was cut")
 	} else {
 		verifrt.Assert(out.Amount.Equal(cut), "recorded execution equals the actual reduction")
-		verifrt.Assert(out.StakerID == "s" && out.AssetID == "a", "recorded execution names the record's staker and asset")
+		verifrt.Assert(verifrt.All(out.StakerID == "s", out.AssetID == "a"), "recorded execution names the record's staker and asset")
 	}
 }
